@@ -182,6 +182,24 @@ def run(ctx):
         ctx.cov['traces_validated_against_impl'] += len(res)
         bad = [i for i, r in enumerate(res) if not r]
         if bad: ctx.broken.append(f'GMRES control model and implementation disagree on {len(bad)} of {len(res)} run(s), first: {ctl_terms[bad[0]][:400]}')
+    # the information returned by a solve describes THAT solve, also when the solver object is reused, and is not changed later
+    import copy
+    def _sys(n):
+        G = qx.rand_int(rng, n, n, -2, 2)
+        for i in range(n): G[i][i] = G[i][i] + Q(5 + n)
+        return qx.to_np(G), qx.to_np(qx.rand_int(rng, n, 1, -3, 3))
+    for kw in ({}, {'preconditioner': 'left_lu'}):
+        (A1, b1), (A2, b2) = _sys(3), _sys(2)
+        with contextlib.redirect_stdout(io.StringIO()):
+            sv = solver.QGMRESSolver(tol=1e-12, **kw); x1, i1 = sv.solve(A1, b1); i1c = copy.deepcopy(i1); x2, i2 = sv.solve(A2, b2)
+            x3, i3 = sv.solve(A2, 0 * b2); xf, jf = solver.QGMRESSolver(tol=1e-12, **kw).solve(A2, b2)
+        inp = {'sequence': 'solve(3x3), solve(2x2), solve(2x2, b=0) on one QGMRESSolver', **kw}
+        h2 = np.asarray(i2.get('residual_history', []), dtype=float); hf = np.asarray(jf.get('residual_history', []), dtype=float)
+        if h2.shape != hf.shape or not np.allclose(h2, hf, rtol=1e-9, atol=1e-14): viol('C04:info:reused-solver', 'residual_history of the second solve on a reused solver is not the history of that solve', inp, h2.tolist(), hf.tolist())
+        if len(h2) > i2.get('iterations', len(h2)) + 0 and len(h2) > 2: viol('C04:info:history-length', 'residual_history has more entries than cycles were run', inp, len(h2), i2.get('iterations'))
+        if len(np.asarray(i3.get('residual_history', []))) != 0 and np.asarray(i3.get('residual_history')).size and float(np.linalg.norm(np.asarray(x3, dtype=np.quaternion).view(float))) == 0 and len(i3['residual_history']) > 1: viol('C04:info:zero-rhs-history', 'a solve with b = 0 returns a stale non-empty history', inp, i3.get('residual_history'))
+        if repr(i1) != repr(i1c): viol('C04:info:changed-later', 'the info record of an earlier solve changed when the solver was used again', inp, repr(i1)[:150], repr(i1c)[:150])
+        ctx.count(('reuse', str(kw)), True)
     _G = qx.rand_int(rng, 3, 3, -2, 2)
     for _i in range(3): _G[_i][_i] = _G[_i][_i] + Q(6)
     _A = qx.to_np(_G); _b = qx.to_np(qx.rand_int(rng, 3, 1, -3, 3))
